@@ -4,6 +4,7 @@ import DaskModel.Lemmas.TextOffsets
 import DaskModel.Lemmas.TextSplit
 import DaskModel.Lemmas.TextLines
 import DaskModel.Lemmas.Round53
+import DaskModel.Lemmas.TextSeekChunked
 /-! # C50 — block-wise text reading reproduces the file exactly (theorems)
 
 Statement: for any file contents, delimiter and blocksize, the blocks from `read_bytes` concatenate to
@@ -145,6 +146,21 @@ theorem block_eq_slice (data d : List Nat) (hd : d ≠ []) (offs : List Nat) (hp
       | succ i =>
         simp only [List.getElem?_cons_succ] at hi ⊢
         exact ih (List.pairwise_cons.mp hpw).2 (fun x hx => hlt x (List.mem_cons_of_mem _ hx)) i hi
+
+/-- **fsspec's chunked `seek_delimiter` is the one-shot search**: reading `blocksize ≥ 1` bytes at a time
+    and carrying the last `len(delimiter)` bytes over finds exactly the first occurrence at or after the
+    position (`Lemmas/TextSeekChunked.lean`); hence `read_block` with fsspec's `2**16` is `readBlock`. -/
+theorem seek_chunked_eq_simple (bsz : Nat) (hb : 0 < bsz) (d data : List Nat) (hd : d ≠ []) (pos : Nat) :
+    seekChunked bsz d data pos = seekSimple d data pos :=
+  seekChunked_eq_seekSimple bsz hb d data hd pos
+
+theorem readBlockChunked_eq_readBlock (bsz : Nat) (hb : 0 < bsz) (data d : List Nat) (off : Nat) (len : Option Nat) :
+    readBlockChunked bsz data d off len = readBlock data d off len := by
+  simp only [readBlockChunked, readBlock, readBlockWith]
+  by_cases hd : d = []
+  · subst hd; simp
+  · have hde : d.isEmpty = false := by cases d <;> simp_all
+    simp only [hde, Bool.false_eq_true, if_false, seekChunked_eq_seekSimple bsz hb d data hd]
 
 /-! ## 3. lines: `decode`, `file_to_blocks` and the reference split -/
 
